@@ -20,7 +20,7 @@ Not decided: DependentCost::resolve arithmetic, the numeric invariant cgas <= gg
 import re
 
 from fvlib.core import (CFG, CallGraph, agg_blocks, assignments, call_blocks, calls, callee_matches,
-                        callee_name, describe, guards, guard_region, short, op_place)
+                        callee_name, describe, guards, guard_region, match_commuted, short, simplify_desc, op_place)
 from fvlib.summ import Summaries
 from fvlib import vm
 
@@ -246,14 +246,14 @@ def run(F, rep, tier, allfacts):
     rep.rule("TAB-storage-charge", "storage_write_slot charges storage_write on len(value) and new_storage_per_byte * saturating_sub(len(value), old_len); storage_clear on range; reads on the length read")
     wn, wf = F.find(r"^fuel_vm::interpreter::storage::.*::storage_write_slot$", ["fuel_vm"], one=True)
     rep.saw(wn)
-    ch = [(callee_name(c).rsplit("::", 1)[-1], [describe(wf, a, depth=16) for a in args]) for i, c, args, *_ in calls(wf)
+    ch = [(callee_name(c).rsplit("::", 1)[-1], [describe(wf, a, depth=30) for a in args]) for i, c, args, *_ in calls(wf)
           if callee_matches(c, r"::gas::.*::(gas_charge|dependent_gas_charge)$")]
     dep = [a for n_, a in ch if n_ == "dependent_gas_charge"]
     flat = [a for n_, a in ch if n_ == "gas_charge"]
     rep.check(len(dep) == 1 and "storage_write(" in dep[0][1] and dep[0][2] == "call:len(arg:value)", "TAB-storage-charge", "write:storage_write(len(value))",
               "%s:%s" % (wf["file"], wf["line"]), "storage_write_slot must charge storage_write() on the written length; found %s" % dep)
-    okf = len(flat) == 1 and bool(re.match(
-        r"^call:saturating_mul\(call:new_storage_per_byte\(.*\),call:saturating_sub\(call:len\(arg:value\),call:branch\(call:storage_slot_len_no_gas\(arg:self,arg:contract_id,arg:key\)\)\)\)$", flat[0][1]))
+    okf = len(flat) == 1 and match_commuted(
+        r"^call:saturating_mul\(call:new_storage_per_byte\(.*\),call:saturating_sub\(call:len\(arg:value\),call:storage_slot_len_no_gas\(arg:self,arg:contract_id,arg:key\)\)\)$", simplify_desc(flat[0][1])) is not None
     rep.check(okf, "TAB-storage-charge", "write:new_storage_per_byte*(new_len-old_len)+", "%s:%s" % (wf["file"], wf["line"]),
               "new-storage charge must be new_storage_per_byte().saturating_mul(len(value).saturating_sub(old_len)) (growth only); found %s" % flat)
     cn, cf = F.find(r"^fuel_vm::interpreter::storage::.*::storage_clear_slot_range$", ["fuel_vm"], one=True)
